@@ -18,6 +18,10 @@ RULE = ("TLC enumerates goal regions per dimension and hands each one over with 
         "motions, each cold and after a first query (warm), moved through GoalRegion / PlanningProblem / "
         "PlanningProblemSet.translate_rotate (cycling), then queried on the moved 13x13 probe grid + 25 probes at the old "
         "location and 6 trajectories; every second random case moves its goal as well. "
+        "File route: 4 lanelet-referenced goal regions in a 3-lanelet network are written (XML cold, protobuf warm; XML warm for [scn,pps]) "
+        "and read back, queried as read, and after Scenario / PlanningProblemSet.translate_rotate histories [scn], "
+        "[scn,pps], [pps,scn], [pps] with 4 lattice motions, on 63 probes at the old place, the once-moved and the "
+        "twice-moved place, plus 4 trajectories. "
         "Signatures: exceptions are grouped by goal shape / angle-interval length class / value type, wrong verdicts "
         "by goal shape / heading group of the point-mass state. "
         "distinct_nontrivial = distinct goal regions with at least one constraint besides time.")
@@ -33,6 +37,9 @@ ASSUMPTIONS = ["time_step is mandatory in a goal state (GoalRegion rejects goal 
                "moved goals: motions are integer/half-integer translations and quarter turns, exact on the lattice; after "
                "a quarter turn (q != 0) pure boundary contact and angle-interval end points are EITHER (cos(pi/2) = 6e-17), "
                "interior and exterior probes must be decided; for q = 0 everything is exact",
+               "file route: positions are half-integers (exact in XML text and protobuf doubles); angle end points went "
+               "through print/parse, so every end-point hit is EITHER; the goal must move once per planning-problem-set "
+               "motion and never with the scenario",
                "expected verdicts are computed by TLC from Goal.tla!Reached / GoalReachedV / IndexOk / MovedReached, never in Python"]
 
 _DIRS = {(1, 0): "E", (1, 1): "NE", (0, 1): "N", (-1, 1): "NW", (-1, 0): "W", (-1, -1): "SW", (0, -1): "S",
@@ -256,23 +263,46 @@ def _expand_moved(c, n):
     return out
 
 
+_FILE_VARIANTS = (("xml", 0), ("xml", 1), ("pb", 1))        # (format, warm)
+
+
+def _expand_file(c):
+    """One TLC 'goal read from a file' case -> as-read queries (history []) and, per motion x history x variant, one case."""
+    out = []
+    common = {"cls": "file", "goal": c["goal"], "lanes": c["lanes"], "states": [], "trajs": [], "src": "tlc"}
+    for fmt, warm in _FILE_VARIANTS[::2]:
+        out.append(dict(common, fmt=fmt, warm=warm, mv=c["fmoves"][0], hist=[], fstates=c["fstates"][0][:63],
+                        ftrajs=[]))
+    for k, mv in enumerate(c["fmoves"]):
+        for hist in c["fhists"]:
+            for fmt, warm in _FILE_VARIANTS:
+                if (fmt, warm) == ("xml", 1) and hist != ["scn", "pps"]:
+                    continue                                  # XML warm only for the full history (keeps the quick tier short)
+                out.append(dict(common, fmt=fmt, warm=warm, mv=mv, hist=hist, fstates=c["fstates"][k],
+                                ftrajs=c["ftrajs"][k]))
+    return out
+
+
 def cases(ctx):
     raw = ctx.gen("MC_Goal", "GEN_Goal_t.cfg" if ctx.thorough else "GEN_Goal.cfg")
     bands, mbands, cs = 0, 0, []
     for n, c in enumerate(raw):
         c["src"] = "tlc"
         b = c.pop("bands", 0)                 # evidence only; never reaches execute()
-        if c.get("moves"):
+        if c["cls"] == "file":
+            cs.extend(_expand_file(c))
+        elif c.get("moves"):
             mbands += b
             cs.extend(_expand_moved(c, n))
         else:
             bands += b
-            for k in ("moves", "mstates", "mtrajs"):
+            for k in ("moves", "mstates", "mtrajs", "lanes", "fmoves", "fhists", "fstates", "ftrajs"):
                 c.pop(k, None)
             cs.append(c)
     ctx.extra["either_band"] = {"tlc_probe_states": sum(len(c["states"]) for c in cs if "mv" not in c),
+                                "file_probe_states": sum(len(c["fstates"]) for c in cs if "hist" in c),
                                 "expected_EITHER": bands,
-                                "moved_probe_states": sum(len(c["mstates"]) for c in cs if "mv" in c) // 2,
+                                "moved_probe_states": sum(len(c["mstates"]) for c in cs if "mstates" in c) // 2,
                                 "moved_expected_EITHER": mbands,
                                 "note": "declared in Goal.tla: orientation on an interval end point after a non-zero "
                                         "number of full turns / of an interval the constructor moved by 2pi; for goals "
@@ -298,7 +328,7 @@ def nontrivial(case):
     if not attrs:
         return None
     import json
-    return json.dumps([case["goal"], case.get("mv"), case.get("warm")], sort_keys=True)
+    return json.dumps([case["goal"], case.get("mv"), case.get("warm"), case.get("hist"), case.get("fmt")], sort_keys=True)
 
 
 def _exc(ex):
@@ -332,8 +362,55 @@ def _ask_traj(problem, tr):
         return _exc(ex), -1
 
 
+def _execute_file(case):
+    """Goal read from a file: write scenario + planning problem (goal position = lanelet references), read back, optional
+    first query (warm), apply the history of Scenario / PlanningProblemSet.translate_rotate(mv), query."""
+    import math
+    import os
+    import numpy as np
+    from crv import gamma
+    from crv.tlc import OUT
+    goal, mv, hist, fmt, warm = case["goal"], case["mv"], case["hist"], case["fmt"], case["warm"]
+    head, lc, attrs = _goal_tags(goal)
+    base = {"goal": goal, "mv": mv, "hist": hist, "fmt": fmt, "warm": warm}
+    tag = "/file:%s/%s/%s" % (fmt, "+".join(hist) if hist else "as-read", "warm" if warm else "cold")
+    d = os.path.join(OUT, "c08_tmp")
+    os.makedirs(d, exist_ok=True)
+    ev = []
+    try:
+        import logging
+        logging.getLogger("commonroad").setLevel(logging.ERROR)   # the writers log notes about default locations
+        sc, pps, problem = gamma.goal_file_roundtrip(goal, case["lanes"], fmt,
+                                                     os.path.join(d, "g%d.%s" % (os.getpid(), fmt)),
+                                                     case.get("gclass", "custom"))
+    except Exception as ex:
+        return {"ev": [dict(base, op="file_is_reached", state=case["fstates"][0], res=_exc(ex),
+                            sig="roundtrip/" + head + tag)]}
+    if warm:                                  # first query before anything moves: judged as read (history so far = [])
+        s = case["fstates"][0]
+        ev.append(dict(base, hist=[], op="file_is_reached", state=s, res=_ask(problem.goal, s),
+                       sig="is_reached/" + head + "/file:%s/as-read/warm" % fmt))
+    t = np.array([mv["t"][0] / 2.0, mv["t"][1] / 2.0])
+    angle = (mv["q"] % 4) * math.pi / 2
+    try:
+        for step in hist:
+            (sc if step == "scn" else pps).translate_rotate(t, angle)
+    except Exception as ex:
+        ev.append(dict(base, op="file_is_reached", state=case["fstates"][0], res=_exc(ex),
+                       sig="translate_rotate/" + head + tag))
+        return {"ev": ev}
+    for s in case["fstates"]:
+        ev.append(dict(base, op="file_is_reached", state=s, res=_ask(problem.goal, s), sig="is_reached/" + head + tag))
+    for tr in case["ftrajs"]:
+        res, idx = _ask_traj(problem, tr)
+        ev.append(dict(base, op="file_goal_reached", traj=tr, res=res, idx=idx, sig="goal_reached/" + head + tag))
+    return {"ev": ev}
+
+
 def execute(case):
     use_repo()
+    if case.get("cls") == "file":
+        return _execute_file(case)
     import math
     import numpy as np
     from crv import gamma
